@@ -47,14 +47,11 @@ pub fn cases(rng: &mut Rng, count: usize, tier: &str) -> Vec<Case> {
         let mut o = Opts::default();
         o.max_terms = if tier == "thorough" && rng.chance(1, 10) { 60 } else { 16 };
         o.max_records = 2;
-        let f = gen::gen_facts(rng, o);
-        let kindb = if f.has(1) && f.has(118) { rng.below(2) as u8 } else { 0 };
-        let s = build::script_from_facts(rng, &f, kindb);
-        let w = World::Builder(s);
+        let mut tags = vec![];
+        let (w, f) = world::gen_world(rng, o, &mut tags);
         let b = w.build();
         let obs = world::on_onto(&b, obs_c01);
-        let mut tags = tags_for(&f);
-        tags.push("builder");
+        tags.extend(tags_for(&f));
         out.push(Case { input: world::winput(&w, f.n_records()), obs, tags });
     }
     out
